@@ -18,7 +18,7 @@ import (
 
 // spyConn is a REAL gorilla connection (loopback) whose data-path calls are counted: how many
 // goroutines are inside WriteMessage / ReadMessage at the same moment (gorilla forbids more than one
-// each; WriteControl, the one concurrency-safe writer, is not counted).  A frame whose payload starts
+// each; a close frame sent through WriteControl counts as a write, pings and pongs do not).  A frame whose payload starts
 // with "HOLD" is held inside WriteMessage until release is closed, so that whatever else the library
 // writes meanwhile (a pong answering a ping, a close frame) has to wait for it -- or overlaps it.
 type spyConn struct {
@@ -50,6 +50,15 @@ func (s *spyConn) WriteMessage(mt int, data []byte) error {
 		}
 	}
 	return s.Conn.WriteMessage(mt, data)
+}
+
+// a close frame sent through WriteControl is a frame of the property all the same (pings / pongs are not)
+func (s *spyConn) WriteControl(mt int, data []byte, deadline time.Time) error {
+	if mt == websocket.CloseMessage {
+		s.enter(&s.inW, &s.maxW)
+		defer atomic.AddInt32(&s.inW, -1)
+	}
+	return s.Conn.WriteControl(mt, data, deadline)
 }
 
 func (s *spyConn) ReadMessage() (int, []byte, error) {
